@@ -1,11 +1,196 @@
 /-
 Driver of word `ib` (bus-level importer model: nodes, senders, receivers, signal types,
-units, value tables; stream impbus).  Filled in by the bus-level import model work.
+units, value tables; stream impbus).
+
+  ib import <dfile-json>   → ok <bus>  |  err <cause>
+
+JSON (no blank anywhere: the driver splits a line at blanks; a blank inside a string travels as
+ the JSON escape of U+0020):
+  dfile = {"nodes":[name…],
+           "vt":[{"n":name,"v":[[id,name]…]}…],                      VAL_TABLE_
+           "ve":[{"m":msgId,"s":sigName,"v":[[id,name]…]}…],         VAL_
+           "cm":[{"k":"g"|"n"|"m"|"s","t":text,"n":node,"m":msgId,"s":sigName}…],
+           "msgs":[{"id":N,"n":name,"z":bytes,"tx":transmitter,
+                    "sigs":[{"n":name,"s":start,"z":size,"sg":0|1,"f":"num/den","o":"num/den",
+                             "mn":"num/den","mx":"num/den","u":unit,"r":[name…]}…]}…]}
+
+Rendering (the same text is produced by harness/s_impbus.go from the real objects):
+  desc="…" nodes=[name#id:"desc",…] msgs=[{id=…,n=…,z=…,tx=…,rx=[names sorted],d="…",sigs=[sig,…]},…]
+  messages sorted by id, signals in layout order
+  sig = S:name@start+size(t<class>:kind,size,s|u,min,max,scale,offset;u<class>:"symbol"|u-;d="…")
+      | E:name@start+size(e<class>:"name",min=…,vals=[idx="name",…];d="…")
+  <class> = number of the object in first-occurrence order of this walk (type / unit / enum
+  objects separately); numbers are exact rationals num/den
 -/
+import Lean.Data.Json
 import Acme.Driver.Util
+import Acme.Core.ImportBus
 
 namespace Acme.Driver.ImportBusD
+open Lean (Json)
+open Acme.ImportBus
 
-def handle (_args : List String) : String := "bad-op"
+abbrev D := Except String
+
+def fld (j : Json) (k : String) : D Json := j.getObjVal? k
+def fStr (j : Json) (k : String) : D String := do (← fld j k).getStr?
+def fNat (j : Json) (k : String) : D Nat := do (← fld j k).getNat?
+def fFlag (j : Json) (k : String) : D Bool := do return (← fNat j k) != 0
+
+def fStrD (j : Json) (k : String) : D String :=
+  match j.getObjVal? k with
+  | .ok v => if v.isNull then pure "" else v.getStr?
+  | .error _ => pure ""
+
+def fNatD (j : Json) (k : String) : D Nat :=
+  match j.getObjVal? k with
+  | .ok v => if v.isNull then pure 0 else v.getNat?
+  | .error _ => pure 0
+
+def fList {α : Type} (f : Json → D α) (j : Json) (k : String) : D (List α) :=
+  match j.getObjVal? k with
+  | .error _ => pure []
+  | .ok v => do
+    if v.isNull then return []
+    let a ← v.getArr?
+    a.toList.mapM f
+
+def parseRat (s : String) : D Rat :=
+  match s.splitOn "/" with
+  | [n, d] =>
+    match n.toInt?, d.toNat? with
+    | some n, some d => if d = 0 then throw "rat" else pure (mkRat n d)
+    | _, _ => throw "rat"
+  | _ => throw "rat"
+
+def fRat (j : Json) (k : String) : D Rat := do parseRat (← fStr j k)
+
+def dVal (j : Json) : D DVal := do
+  let a ← j.getArr?
+  match a.toList with
+  | [i, n] => pure (← i.getNat?, ← n.getStr?)
+  | _ => throw "value"
+
+def dTable (j : Json) : D DTable := do
+  pure { name := ← fStr j "n", values := ← fList dVal j "v" }
+
+def dEnc (j : Json) : D DEnc := do
+  pure { msgId := ← fNat j "m", sigName := ← fStr j "s", values := ← fList dVal j "v" }
+
+def dComment (j : Json) : D DComment := do
+  match ← fStr j "k" with
+  | "g" => pure (.general (← fStr j "t"))
+  | "n" => pure (.node (← fStrD j "n") (← fStr j "t"))
+  | "m" => pure (.msg (← fNatD j "m") (← fStr j "t"))
+  | "s" => pure (.sig (← fNatD j "m") (← fStrD j "s") (← fStr j "t"))
+  | _ => throw "comment"
+
+def dSignal (j : Json) : D DSignal := do
+  pure { name := ← fStr j "n", start := ← fNat j "s", size := ← fNat j "z", signed := ← fFlag j "sg",
+         factor := ← fRat j "f", offset := ← fRat j "o", min := ← fRat j "mn", max := ← fRat j "mx",
+         unit := ← fStrD j "u", receivers := ← fList (·.getStr?) j "r" }
+
+def dMessage (j : Json) : D DMessage := do
+  pure { id := ← fNat j "id", name := ← fStr j "n", size := ← fNat j "z", transmitter := ← fStr j "tx",
+         sigs := ← fList dSignal j "sigs" }
+
+def dFile (j : Json) : D DFile := do
+  pure { nodes := ← fList (·.getStr?) j "nodes", tables := ← fList dTable j "vt", encs := ← fList dEnc j "ve",
+         comments := ← fList dComment j "cm", msgs := ← fList dMessage j "msgs" }
+
+/-! ## rendering -/
+
+def q (s : String) : String := "\"" ++ s ++ "\""
+
+def showKind : Acme.Arith.Kind → String
+  | .custom => "custom" | .flag => "flag" | .integer => "integer" | .decimal => "decimal"
+
+/-- the classes met so far: object indexes in first-occurrence order -/
+structure Seen where
+  types : List Nat := []
+  units : List Nat := []
+  enums : List Nat := []
+
+def classOf (seen : List Nat) (i : Nat) : List Nat × Nat :=
+  match seen.findIdx? (· == i) with
+  | some k => (seen, k)
+  | none => (seen ++ [i], seen.length)
+
+def showNode (n : INode) : String := s!"{n.name}#{n.id}:{q n.desc}"
+
+def showType (t : SigType) : String :=
+  s!"{showKind t.kind},{t.size},{if t.signed then "s" else "u"},{showRat t.min},{showRat t.max},{showRat t.scale},{showRat t.offset}"
+
+def showVals (vs : List DVal) : String :=
+  showList (vs.map (fun v => s!"{v.1}={q v.2}"))
+
+def showSig (b : IBus) (seen : Seen) (s : ISignal) : Seen × String :=
+  let size := match b.sigSize s with
+    | some z => toString z
+    | none => "?"
+  match s.kind with
+  | .standard t u =>
+    let (ts, tc) := classOf seen.types t
+    let tyS := match b.types[t]? with
+      | some ty => showType ty
+      | none => "?"
+    let (us, uS) := match u with
+      | none => (seen.units, "u-")
+      | some ui =>
+        let (us, uc) := classOf seen.units ui
+        (us, s!"u{uc}:{q (b.units.getD ui "?")}")
+    ({ seen with types := ts, units := us },
+     s!"S:{s.name}@{s.start}+{size}(t{tc}:{tyS};{uS};d={q s.desc})")
+  | .enum e =>
+    let (es, ec) := classOf seen.enums e
+    let eS := match b.enums[e]? with
+      | some en => s!"{q en.name},min={en.minSize},vals={showVals en.values}"
+      | none => "?"
+    ({ seen with enums := es }, s!"E:{s.name}@{s.start}+{size}(e{ec}:{eS};d={q s.desc})")
+
+def showSigs (b : IBus) : Seen → List ISignal → Seen × List String
+  | seen, [] => (seen, [])
+  | seen, s :: r =>
+    let (seen1, o) := showSig b seen s
+    let (seen2, os) := showSigs b seen1 r
+    (seen2, o :: os)
+
+def showMsg (b : IBus) (seen : Seen) (m : IMessage) : Seen × String :=
+  let (seen', ss) := showSigs b seen m.sigs
+  let rx := m.receivers.mergeSort (fun a c => decide (a ≤ c))
+  (seen', "{" ++ s!"id={m.id},n={m.name},z={m.size},tx={m.sender},rx={showList rx},d={q m.desc},sigs={showList ss}" ++ "}")
+
+def showMsgs (b : IBus) : Seen → List IMessage → List String
+  | _, [] => []
+  | seen, m :: r =>
+    let (seen', o) := showMsg b seen m
+    o :: showMsgs b seen' r
+
+def showBus (b : IBus) : String :=
+  let msgs := b.msgs.mergeSort (fun a c => decide (a.id ≤ c.id))
+  s!"desc={q b.desc} nodes={showList (b.nodes.map showNode)} msgs={showList (showMsgs b {} msgs)}"
+
+def showErr : ImpErr → String
+  | .valueIndexDuplicated => "valueIndexDuplicated" | .valueNameDuplicated => "valueNameDuplicated"
+  | .nodeNameDuplicated => "nodeNameDuplicated" | .nodeIdDuplicated => "nodeIdDuplicated"
+  | .sigNameDuplicated => "sigNameDuplicated" | .startOutOfBounds => "startOutOfBounds"
+  | .nodeNotFound => "nodeNotFound" | .receiverIsSender => "receiverIsSender"
+  | .msgNameDuplicated => "msgNameDuplicated" | .msgTooBig => "msgTooBig"
+  | .canIdDuplicated => "canIdDuplicated" | .sizeOutOfBounds => "sizeOutOfBounds"
+  | .sizeTooSmall => "sizeTooSmall" | .sizeZero => "sizeZero" | .intersect => "intersect"
+  | .internal => "internal"
+
+def handleImport (payload : String) : String :=
+  match Json.parse payload >>= dFile with
+  | .error e => "bad-op " ++ e
+  | .ok f =>
+    match importBus f with
+    | .ok b => "ok " ++ showBus b
+    | .error e => "err " ++ showErr e
+
+def handle (args : List String) : String :=
+  match args with
+  | "import" :: payload :: _ => handleImport payload
+  | _ => "bad-op"
 
 end Acme.Driver.ImportBusD
